@@ -130,6 +130,53 @@ pub fn install_panic_hook() {
 }
 
 /// Runs `f`, converting a panic into `Err(message @ location)`.
+/// A case that never returns (code under test blocking an OS thread inside the simulator, e.g.
+/// on a `std::sync` lock held by a parked simulated thread) must not hang the check: it is a
+/// harness error (exit 2), never a verdict.
+pub mod watchdog {
+    use std::sync::atomic::{AtomicU64, AtomicUsize, Ordering};
+    use std::time::{SystemTime, UNIX_EPOCH};
+
+    const NSLOTS: usize = 256;
+    static SLOTS: [AtomicU64; NSLOTS] = [const { AtomicU64::new(0) }; NSLOTS];
+    static NEXT: AtomicUsize = AtomicUsize::new(0);
+    thread_local! {
+        static SLOT: usize = NEXT.fetch_add(1, Ordering::SeqCst) % NSLOTS;
+    }
+
+    fn now() -> u64 {
+        SystemTime::now().duration_since(UNIX_EPOCH).map(|d| d.as_secs()).unwrap_or(0)
+    }
+
+    /// Seconds one execution of one case may take (VERIF_CASE_TIMEOUT overrides).
+    fn limit() -> u64 {
+        std::env::var("VERIF_CASE_TIMEOUT").ok().and_then(|s| s.parse().ok()).unwrap_or(600)
+    }
+
+    pub fn enter() {
+        SLOT.with(|s| SLOTS[*s].store(now().max(1), Ordering::SeqCst));
+    }
+
+    pub fn leave() {
+        SLOT.with(|s| SLOTS[*s].store(0, Ordering::SeqCst));
+    }
+
+    pub fn start() {
+        let limit = limit();
+        std::thread::spawn(move || loop {
+            std::thread::sleep(std::time::Duration::from_secs(2));
+            let t = now();
+            for s in SLOTS.iter() {
+                let t0 = s.load(Ordering::SeqCst);
+                if t0 != 0 && t.saturating_sub(t0) > limit {
+                    eprintln!("harness error: one case has been executing for more than {limit} s (code under test blocking inside the simulator?); no verdict");
+                    std::process::exit(2);
+                }
+            }
+        });
+    }
+}
+
 pub fn guarded<R>(f: impl FnOnce() -> R) -> Result<R, String> {
     LAST_PANIC.with(|p| *p.borrow_mut() = None);
     match catch_unwind(AssertUnwindSafe(f)) {
@@ -221,6 +268,9 @@ pub struct BatchStats {
     pub wall_s: f64,
     pub violation: Option<ReportedViolation>,
     pub known_hit: BTreeMap<String, (u64, String)>,
+    /// a violation seen with several harness threads that neither replays in isolation nor
+    /// shows when the batch is decided on one thread
+    pub unreproducible: Option<String>,
 }
 
 pub struct ReportedViolation {
@@ -298,7 +348,10 @@ pub fn run_batch<W: World>(world: &W, cfg: &BatchConfig) -> BatchStats {
                             .unwrap()
                             .insert(i, json!({"run_index": i, "run_seed": seed, "case": serde_json::to_value(&case).unwrap_or(Value::Null)}));
                     }
-                    let out = match guarded(|| world.execute(&case)) {
+                    watchdog::enter();
+                    let executed = guarded(|| world.execute(&case));
+                    watchdog::leave();
+                    let out = match executed {
                         Ok(o) => o,
                         Err(p) => {
                             // a panic escaping a world's own guards is a harness error
@@ -372,6 +425,23 @@ pub fn run_batch<W: World>(world: &W, cfg: &BatchConfig) -> BatchStats {
     let violation = found.into_iter().next().map(|(i, (v, case))| {
         report_violation(world, cfg, i, v, case)
     });
+    if let Some(v) = &violation {
+        if !v.reproduced && threads > 1 {
+            // The violation does not replay in isolation. Independent cases run on several OS
+            // threads of this process; code under test with process-wide state makes them
+            // interfere. Decide the batch again on one thread, where every case runs alone.
+            eprintln!("note: violation {:?} in batch {} (run {}) did not reproduce from its replay file; re-running the batch on one thread", v.violation.class, cfg.batch, v.run_index);
+            let again = run_batch(world, &BatchConfig { threads: 1, ..*cfg });
+            let mut again = again;
+            if again.violation.is_none() {
+                // nothing when every case runs alone: remembered as unreproducible (exit 2 unless
+                // another batch decides the property)
+                again.unreproducible = Some(format!("{} (run {})", v.violation.class, v.run_index));
+            }
+            again.wall_s = t0.elapsed().as_secs_f64();
+            return again;
+        }
+    }
     let runs_done = if violation.is_some() {
         next.load(Ordering::SeqCst).min(cfg.runs)
     } else {
@@ -390,11 +460,15 @@ pub fn run_batch<W: World>(world: &W, cfg: &BatchConfig) -> BatchStats {
         wall_s: t0.elapsed().as_secs_f64(),
         violation,
         known_hit: known_hit.into_inner().unwrap(),
+        unreproducible: None,
     }
 }
 
 fn violates_same<W: World>(world: &W, case: &W::Case, class: &str) -> Option<(Violation, W::Case)> {
-    match guarded(|| world.execute(case)) {
+    watchdog::enter();
+    let r = guarded(|| world.execute(case));
+    watchdog::leave();
+    match r {
         Ok(out) => match out.violation {
             Some((v, c)) if v.class == class => Some((v, c)),
             _ => None,
@@ -475,8 +549,10 @@ fn report_violation<W: World>(
 pub fn replay_text<W: World>(world: &W, text: &str) -> Result<Option<Violation>, String> {
     let file: ReplayFile = serde_json::from_str(text).map_err(|e| e.to_string())?;
     let case: W::Case = serde_json::from_value(file.case).map_err(|e| e.to_string())?;
-    let out = guarded(|| world.execute(&case))?;
-    Ok(out.violation.map(|(v, _)| v))
+    watchdog::enter();
+    let out = guarded(|| world.execute(&case));
+    watchdog::leave();
+    Ok(out?.violation.map(|(v, _)| v))
 }
 
 // ---------------------------------------------------------------------------------------------
@@ -620,21 +696,27 @@ impl CheckReport {
             }
         }
         let mut code = 0;
+        let mut undecided: Option<String> = None;
         for b in &self.batches {
             if let Some(v) = &b.violation {
                 println!("  violation class: {}", v.violation.class);
                 println!("  violation: {}", v.violation.message);
                 if !v.reproduced {
-                    // a failure that does not replay is a harness defect, not a finding
-                    eprintln!(
-                        "harness error: violation in batch {} did not reproduce from its replay file {}",
-                        b.batch, v.replay_path
-                    );
-                    return 2;
+                    // a failure that does not replay is never reported as a finding
+                    undecided = Some(format!("violation in batch {} did not reproduce from its replay file {}", b.batch, v.replay_path));
+                    continue;
                 }
                 println!("VIOLATION property={} replay={}", self.property_id, v.replay_path);
                 code = 1;
             }
+            if let Some(u) = &b.unreproducible {
+                undecided = Some(format!("batch {}: {u} was observed while independent cases ran on several threads, but neither from its replay file nor with the batch run on one thread (process-wide state in the code under test?)", b.batch));
+            }
+        }
+        if let (0, Some(u)) = (code, &undecided) {
+            // nothing reproducible decides the property: harness error, no verdict
+            eprintln!("harness error: {u}");
+            return 2;
         }
         if distinct < 2 && code == 0 {
             eprintln!("harness error: fewer than 2 distinct non-trivial cases explored");
